@@ -22,13 +22,13 @@ RULE = ('Cases = generated scene (layered, split_candidate with >= 30 hits per g
 ASSUMPTIONS = ['crashes of run() are left to C08 (counted under skipped_precondition)']
 BUDGET = {'quick': 1100, 'thorough': 25000}
 MANY = {'quick': 4, 'thorough': 48}
-WEIGHTS = {'layered': 6, 'split_candidate': 6, 'merge_chain': 3, 'bundle_stress': 2, 'degenerate': 3,
+WEIGHTS = {'layered': 6, 'split_candidate': 5, 'double_split': 4, 'merge_chain': 3, 'bundle_stress': 2, 'degenerate': 3,
            'exact_counts': 1, 'ref_window': 2}
 
 
 def strategy(tier):
     return S.pipeline_case(WEIGHTS, vary=('msa', 'okta', 'sep', 'base', 'algo'), p_default_prms=0.2,
-                           exclude=False, index_kinds=True)
+                           exclude=False, index_kinds=True, anomalies=True, anomaly_negative=False)
 
 
 def rowkey(c, dt, h, t):
